@@ -296,6 +296,9 @@ def _do_check(pid, tier, only, want_playback, P, sd, seed, t0):
             if kinds & {"unwind", "unsupported"}:
                 # results of a harness whose unwinding assertion failed are not trusted
                 continue
+            if h.expect == "link":
+                undecided.append("%s: link obligation to a lemma failed (not a property violation by itself): %s" % (h.id, "; ".join(str(f["description"]) for f in r["failed"][:2])))
+                continue
             if h.known and h.known in open_known:
                 known_lines.append("KNOWN-FINDING: property=%s %s [%s] %s" % (pid, h.known, h.id, open_known[h.known].get("what", "")))
                 r["known"] = h.known
